@@ -44,24 +44,87 @@ def check_timeout_guards(mod, K, rep, rid):
     ET = K['ETIMEDOUT']
     fam = _timed_p_family(mod)
     found = 0
+    # everything that can reach the return of the timed P: constants other than 0 and computed values are result definitions too
+    leaves = _result_leaves(mod, mod.func('nsync_mu_semaphore_p_with_deadline'), fam)
+    extra = {}
+    for g, d, at, v in leaves:
+        if v == 0:
+            continue
+        extra.setdefault(g.name, []).append((d, at, v))
     for fname, dl in sorted(fam.items()):
-        found += _check_timeout_guards_in(mod, mod.func(fname), dl, ET, rep, rid)
+        found += _check_timeout_guards_in(mod, mod.func(fname), dl, ET, rep, rid, extra.get(fname, ()))
     if not found:
         raise AnalysisBroken('%s: no definition of ETIMEDOUT found in the timed P' % rid)
 
-def _check_timeout_guards_in(mod, fn, dl, ET, rep, rid):
+def _result_leaves(mod, fn, fam, seen=None):
+    """values that can reach the return of fn, traced back through phis, selects, casts and calls of same-file helpers: a list of
+    (function, defining instruction, terminator/instruction at which the choice is made, value) with value an int or an SSA name"""
+    out = []
+    seen = set() if seen is None else seen
+    def walk(g, ref, at, via):
+        if IR.is_int(ref):
+            out.append((g, via, at, IR.uval(ref) & 0xffffffff))
+            return
+        i = g.imap.get(ref) if isinstance(ref, str) else None
+        if i is None:
+            out.append((g, via, at, ref))
+            return
+        key = (g.name, i.id, id(at))
+        if key in seen:
+            return
+        seen.add(key)
+        if i.op == 'phi':
+            for v, pb in i.ops:
+                walk(g, v, g.bmap[pb].term, i)
+        elif i.op == 'select':
+            for v in i.ops[1:]:
+                walk(g, v, None, i)
+        elif i.op in ('zext', 'sext', 'trunc', 'freeze'):
+            walk(g, i.ops[0], at, via)
+        elif i.op == 'call' and i.callee in fam and i.callee != g.name:
+            h = mod.func(i.callee)
+            for r in h.real_insts():
+                if r.op == 'ret' and r.ops:
+                    walk(h, r.ops[0], r, r)
+        else:
+            out.append((g, via, at, ref))
+    for r in fn.real_insts():
+        if r.op == 'ret' and r.ops:
+            walk(fn, r.ops[0], r, r)
+    return out
+
+def _check_timeout_guards_in(mod, fn, dl, ET, rep, rid, extra=()):
     defs = []
     for i in fn.real_insts():
         if i.op == 'phi':
             for v, pb in i.ops:
                 if IR.is_int(v) and IR.uval(v) == ET:
-                    defs.append((i, fn.bmap[pb].term))
+                    defs.append((i, fn.bmap[pb].term, ET))
         elif i.op == 'ret' and i.ops and IR.is_int(i.ops[0]) and IR.uval(i.ops[0]) == ET:
-            defs.append((i, i))
+            defs.append((i, i, ET))
         elif i.op == 'select' and any(IR.is_int(o) and IR.uval(o) == ET for o in i.ops[1:]):
-            defs.append((i, None))
-    for d, at in defs:
+            defs.append((i, None, ET))
+    have = set((id(d), id(at)) for d, at, v in defs)
+    for d, at, v in extra:
+        if (id(d), id(at)) not in have:
+            have.add((id(d), id(at)))
+            defs.append((d, at, v))
+    def is_errno(ref):
+        x = fn.imap.get(ref) if isinstance(ref, str) else None
+        if x is None or x.op != 'load':
+            return False
+        src = fn.imap.get(x.ops[0]) if isinstance(x.ops[0], str) else None
+        return src is not None and src.op == 'call' and src.callee == '__errno_location'
+    def _w(d, at):
+        # a phi carries no line: report the branch that selects the value
+        return at.where() if (at is not None and (not d.loc or not d.loc[1])) else d.where()
+    for d, at, val in defs:
         ok_res = ok_errno = ok_clock = False
+        if isinstance(val, int) and val != ET:
+            rep.instance(rid, 'result %d defined at %s' % (val, d.where())); rep.oblig(rid, False)
+            rep.violate(Violation(rid, _w(d, at), 'the timed wait can return %d, which is neither 0 nor ETIMEDOUT: callers take every non-zero result for an expired deadline' % val,
+                                  site='nsync_mu_semaphore_p_with_deadline/foreign-result'))
+            continue
         if at is not None:
             for c, sense in _guards(fn, at):
                 n = _norm_cmp(fn, c, sense)
@@ -71,10 +134,8 @@ def _check_timeout_guards_in(mod, fn, dl, ET, rep, rid):
                 ai = fn.imap.get(a) if isinstance(a, str) else None
                 if pred == 'eq' and IR.is_int(b) and IR.ival(b) == -1 and ai is not None and ai.op == 'call':
                     ok_res = True
-                if pred == 'eq' and IR.is_int(b) and IR.uval(b) == ET and ai is not None and ai.op == 'load':
-                    src = fn.imap.get(ai.ops[0]) if isinstance(ai.ops[0], str) else None
-                    if src is not None and src.op == 'call' and src.callee == '__errno_location':
-                        ok_errno = True
+                if pred == 'eq' and IR.is_int(b) and IR.uval(b) == ET and is_errno(a) and (isinstance(val, int) or a == val):
+                    ok_errno = True
                 if ai is not None and ai.op == 'call' and ai.callee == 'nsync_time_cmp' and IR.is_int(b) and IR.ival(b) == 0:
                     # cmp(deadline, now) <= 0   or   cmp(now, deadline) >= 0
                     ops = ai.ops
@@ -88,12 +149,16 @@ def _check_timeout_guards_in(mod, fn, dl, ET, rep, rid):
                     if (first_is_deadline and pred in ('sle', 'slt')) or (first_is_now and pred in ('sge', 'sgt')):
                         ok_clock = True
         ok = ok_res and ok_errno and ok_clock
-        rep.instance(rid, 'ETIMEDOUT defined at %s: guards result==-1:%s errno==ETIMEDOUT:%s deadline<=now:%s' % (d.where(), ok_res, ok_errno, ok_clock))
+        what = 'ETIMEDOUT' if isinstance(val, int) else 'a computed result (%s)' % fn.name_of(val)
+        rep.instance(rid, '%s defined at %s: guards result==-1:%s errno==ETIMEDOUT:%s deadline<=now:%s' % (what, d.where(), ok_res, ok_errno, ok_clock))
         rep.oblig(rid, ok)
         if not ok:
             missing = [n for n, v in (('wait result == -1', ok_res), ('errno == ETIMEDOUT', ok_errno), ('deadline <= now (clock re-check)', ok_clock)) if not v]
-            rep.violate(Violation(rid, d.where(), 'the timed wait can report ETIMEDOUT without: ' + ', '.join(missing) + ' (an early or spurious kernel timeout would be reported as a real one)',
-                                  site='nsync_mu_semaphore_p_with_deadline/etimedout-guards'))
+            if isinstance(val, int):
+                msg = 'the timed wait can report ETIMEDOUT without: ' + ', '.join(missing) + ' (an early or spurious kernel timeout would be reported as a real one)'
+            else:
+                msg = 'the timed wait can return a computed non-zero result (%s) without: ' % fn.name_of(val) + ', '.join(missing) + ' (e.g. EINTR from an interrupted kernel wait reaches the caller, which takes every non-zero result for an expired deadline)'
+            rep.violate(Violation(rid, _w(d, at), msg, site='nsync_mu_semaphore_p_with_deadline/etimedout-guards'))
     return len(defs)
 
 def run(ctx, rep):
@@ -142,6 +207,10 @@ def run(ctx, rep):
                     if not ok:
                         rep.violate(Violation('C12.R2', _where_fn(mod.func(name)), '%s can return success without having decremented the count by a successful CAS (a wait would succeed without a post)' % name,
                                               site='%s/success-without-cas' % name))
+                elif not isinstance(rv, int):
+                    # a computed result the interpreter cannot evaluate (errno handed through, say): whether it is a failure on this path is not
+                    # known here; R3 judges every computed result definition of the timed P
+                    rep.instance('C12.R2', '%s: computed return value, left to R3' % name)
                 else:
                     # a failure return (ETIMEDOUT) must not have consumed a post: the poster's V is spent, nobody will post again for it,
                     # and the caller treats the wait as timed out (lost post)
